@@ -36,6 +36,7 @@ type H struct {
 	discards   map[string]int
 	excluded   map[string]int
 	samples    []Sample
+	fallback   []Sample // first judged cases, used only when no non-trivial sample exists
 	sampleSeen map[string]int
 	violations []Violation
 	knownHit   map[string]string
@@ -44,6 +45,7 @@ type H struct {
 	lastFail   map[string]*Failure
 	replaysRun int
 	subEvals   map[string]int
+	enumFails  map[string]int
 	exhaustive map[string]bool
 }
 
@@ -158,7 +160,7 @@ func New(property string) *H {
 		Root: Root(), OutDir: os.Getenv("VERIF_OUT"), start: time.Now(),
 		nontrivial: map[uint64]struct{}{}, classes: map[string]int{}, discards: map[string]int{},
 		excluded: map[string]int{}, sampleSeen: map[string]int{}, knownHit: map[string]string{},
-		lastFail: map[string]*Failure{}, subEvals: map[string]int{}, exhaustive: map[string]bool{},
+		lastFail: map[string]*Failure{}, subEvals: map[string]int{}, enumFails: map[string]int{}, exhaustive: map[string]bool{},
 	}
 	if h.NShards < 1 {
 		h.NShards = 1
@@ -265,6 +267,9 @@ func (h *H) Report(t TB, sub string, caseKey string, c interface{}, v Verdict) {
 	for _, cl := range v.Classes {
 		h.classes[sub+"/"+cl]++
 	}
+	if v.OK && len(h.fallback) < 2 {
+		h.fallback = append(h.fallback, Sample{Sub: sub, Case: c, Observed: clip(v.Observed, 600)})
+	}
 	if v.OK {
 		if v.NonTrivial {
 			h.nontrivial[hash64(sub+"\x00"+caseKey)] = struct{}{}
@@ -286,6 +291,19 @@ func (h *H) Report(t TB, sub string, caseKey string, c interface{}, v Verdict) {
 	}
 	h.lastFail[sub] = &Failure{Property: h.Property, Sub: sub, Case: c, Expected: v.Expected, Observed: v.Observed, Detail: v.Detail,
 		FoundBy: map[string]interface{}{"tier": h.Tier, "seed": h.Seed, "shard": h.Shard}}
+	if tt, isEnum := t.(*testing.T); isEnum {
+		// plain (enumerated) sub-check: every case is already minimal, so record it now and continue,
+		// up to a cap, instead of stopping at the first failure
+		h.enumFails[sub]++
+		n := h.enumFails[sub]
+		h.mu.Unlock()
+		h.FlushFailure(sub)
+		tt.Errorf("property %s/%s violated: %s\n--- expected\n%s\n--- observed\n%s", h.Property, sub, v.Detail, clip(v.Expected, 1500), clip(v.Observed, 1500))
+		if n >= 5 {
+			tt.Fatalf("too many failures in %s: stopping this sub-check", sub)
+		}
+		return
+	}
 	h.mu.Unlock()
 	t.Fatalf("property %s/%s violated: %s\n--- expected\n%s\n--- observed\n%s", h.Property, sub, v.Detail, clip(v.Expected, 2000), clip(v.Observed, 2000))
 }
@@ -488,6 +506,9 @@ func (h *H) Finish(complete bool) {
 		Classes: h.classes, Discards: h.discards, Excluded: h.excluded, SubEvals: h.subEvals, Samples: h.samples, Violations: h.violations,
 		KnownHit: h.knownHit, Notes: h.notes, Rules: h.rules, ReplaysRun: h.replaysRun, Exhaustive: h.exhaustive,
 		WallS: time.Since(h.start).Seconds(), Complete: complete}
+	if len(ev.Samples) == 0 {
+		ev.Samples = h.fallback
+	}
 	for k := range h.nontrivial {
 		ev.NonTrivial = append(ev.NonTrivial, strconv.FormatUint(k, 16))
 	}
